@@ -117,6 +117,10 @@ def op_cases(v_int: int, s: str, lst: List[Any]) -> List[Tuple[Dict[str, Any], A
     for op in ("in", "ni", "not-in"):
         for r in (lst + ["zz"]):
             out.append(({"type": "value", "key": "k", "op": op, "value": lst}, {"k": r}, REL[op](r, lst), f"{op}-list", True))
+        # a string value: Custodian's `in` is Python's, so against a string it is the substring relation
+        joined = s + "," + s[::-1] + "q"
+        for r in (s, s[::-1] + "q", s[:1], s[:2], joined, joined[1:-1], "zz", s + "zz", ",", ""):
+            out.append(({"type": "value", "key": "k", "op": op, "value": joined}, {"k": r}, REL[op](r, joined), f"{op}-string", True))
     for r in (lst, lst[:1], [], ["zz"], lst + ["zz"]):
         for member in (lst[0] if lst else "zz", "zz"):
             out.append(({"type": "value", "key": "k", "op": "contains", "value": member}, {"k": r}, REL["contains"](r, member), "contains-list", True))
